@@ -506,6 +506,9 @@ impl Rows {
     }
 }
 impl Family for Rows {
+    fn ambient(&self, idx: u64) -> u64 {
+        crate::engine::rot(idx)
+    }
     fn name(&self) -> String {
         "row-arrangements".into()
     }
@@ -577,6 +580,9 @@ impl Family for Rows {
 /// cells written before and after must arrive unchanged
 struct RecoverText;
 impl Family for RecoverText {
+    fn ambient(&self, idx: u64) -> u64 {
+        crate::engine::rot(idx)
+    }
     fn name(&self) -> String {
         "refused-text-cell-then-replacement".into()
     }
